@@ -17,8 +17,9 @@ import Knut.Properties.C03Report
 * **flows at booking-day prices** – `C03_flow_window_noclose` (pipeline) and `C03_command_flow_cell_noclose_partial`
   (cells): without closing, the row of an account that is neither asset/liability nor below `Income` shows, in the column
   of the period end `D`, exactly `−Spec.flowAt V days b (window start − 1) D`, the sum of its bookings inside the window
-  up to `D`, each valued by `Spec.bookingValue` at the normalised prices of ITS OWN day.  Open: the same with `--close`
-  (the valued closing transfers) and for accounts below `Income` at cell level (they also carry the mirrored adjustments).
+  up to `D`, each valued by `Spec.bookingValue` at the normalised prices of ITS OWN day.  The same with `--close` (the
+  valued closing transfers) and for accounts below `Income` (they also carry the mirrored adjustments) is
+  `C03_command_flow_cell` in `Properties/C03Flows.lean`.
 -/
 namespace Knut.C03
 open Knut Knut.Dec Knut.MTM Knut.LedgerCommand
@@ -157,10 +158,10 @@ open Knut.Table (Cell) in
 /-- **the cells of an expense/equity row, `--close=false`**: in a cumulative valued report with per-account rows the
 row of an account `b` that is neither asset/liability nor below `Income` shows, in the column of the period end `D`,
 exactly `−Spec.flowAt V days b (window start − 1) D` (the income/expense/equity section flips the sign): every booking
-valued at the price of its own day, no revaluation afterwards.  Partial with respect to the property's sentence in two
-directions, both stated: closing must be off (with `--close` the period-start transfers to `Equity:Equity` are added;
-the valued closing sums are not mechanised), and accounts below `Income` additionally carry the mirrored adjustments
-(`C03_gain_mirrors_adjustments`). -/
+valued at the price of its own day, no revaluation afterwards.  Partial in two directions, both stated: closing must be
+off, and the account must not be below `Income`.  The full statement (closing on or off, every account other than
+`Equity:Equity`, accounts below `Income` with the mirrored adjustments) is `C03_command_flow_cell`
+(`Properties/C03Flows.lean`), which supersedes this one. -/
 theorem C03_command_flow_cell_noclose_partial (f : BalanceFlags) (v : Commodity) (hf : PlainFlags f v)
     (hcl : f.close = false) (ds : List Directive)
     (hz : ∀ t, Directive.tx t ∈ ds → ∀ p ∈ t.postings, p.value = 0)
